@@ -419,16 +419,59 @@ func usesThroughCopies(v ssa.Value, visit func(ssa.Instruction, ssa.Value)) {
 			case *ssa.Store:
 				// stored into a local alloc: follow loads of that alloc
 				if al, ok := y.Addr.(*ssa.Alloc); ok && y.Val == x && al.Referrers() != nil {
-					for _, lr := range *al.Referrers() {
-						if ld, ok := lr.(*ssa.UnOp); ok && ld.Op == token.MUL {
-							rec(ld)
-						}
+					for _, ld := range LoadsReachedBy(y) {
+						rec(ld)
 					}
 				}
 			}
 		}
 	}
 	rec(v)
+}
+
+// LoadsReachedBy returns the loads of the local alloc written by store st that
+// st's value can reach without an intervening store to the same alloc
+// (reaching definitions over the CFG; the alloc must not be written through
+// other aliases, which holds for go/ssa's spilled locals and named results).
+func LoadsReachedBy(st *ssa.Store) []*ssa.UnOp {
+	al, ok := st.Addr.(*ssa.Alloc)
+	if !ok {
+		return nil
+	}
+	var out []*ssa.UnOp
+	scan := func(b *ssa.BasicBlock, from int) (killed bool) {
+		for i := from; i < len(b.Instrs); i++ {
+			switch x := b.Instrs[i].(type) {
+			case *ssa.UnOp:
+				if x.Op == token.MUL && x.X == al {
+					out = append(out, x)
+				}
+			case *ssa.Store:
+				if x.Addr == al {
+					return true
+				}
+			}
+		}
+		return false
+	}
+	b := st.Block()
+	if scan(b, InstrIndex(st)+1) {
+		return out
+	}
+	seen := map[*ssa.BasicBlock]bool{}
+	stack := append([]*ssa.BasicBlock{}, b.Succs...)
+	for len(stack) > 0 {
+		x := stack[len(stack)-1]
+		stack = stack[:len(stack)-1]
+		if seen[x] {
+			continue
+		}
+		seen[x] = true
+		if !scan(x, 0) {
+			stack = append(stack, x.Succs...)
+		}
+	}
+	return out
 }
 
 // OkEdges returns, for a call with an error result, the CFG edges taken when
@@ -508,11 +551,9 @@ func BoolEdges(v ssa.Value) (t []Edge, f []Edge) {
 		for _, r := range *x.Referrers() {
 			switch y := r.(type) {
 			case *ssa.Store:
-				if al, ok := y.Addr.(*ssa.Alloc); ok && y.Val == x && al.Referrers() != nil {
-					for _, lr := range *al.Referrers() {
-						if ld, ok := lr.(*ssa.UnOp); ok && ld.Op == token.MUL {
-							rec(ld, neg)
-						}
+				if _, ok := y.Addr.(*ssa.Alloc); ok && y.Val == x {
+					for _, ld := range LoadsReachedBy(y) {
+						rec(ld, neg)
 					}
 				}
 			}
@@ -540,4 +581,45 @@ func HasPrefixAny(s string, ps ...string) bool {
 		}
 	}
 	return false
+}
+
+// StoresReaching returns the stores to local alloc al that may be the last
+// write before load executes (backward reaching definitions); fromEntry is true
+// when the load can also be reached with no store at all (zero value).
+func StoresReaching(load *ssa.UnOp, al *ssa.Alloc) (stores []*ssa.Store, fromEntry bool) {
+	scanBack := func(b *ssa.BasicBlock, from int) *ssa.Store {
+		for i := from; i >= 0; i-- {
+			if st, ok := b.Instrs[i].(*ssa.Store); ok && st.Addr == al {
+				return st
+			}
+		}
+		return nil
+	}
+	b := load.Block()
+	if st := scanBack(b, InstrIndex(load)-1); st != nil {
+		return []*ssa.Store{st}, false
+	}
+	seen := map[*ssa.BasicBlock]bool{}
+	var stack []*ssa.BasicBlock
+	if len(b.Preds) == 0 {
+		return nil, true
+	}
+	stack = append(stack, b.Preds...)
+	for len(stack) > 0 {
+		x := stack[len(stack)-1]
+		stack = stack[:len(stack)-1]
+		if seen[x] {
+			continue
+		}
+		seen[x] = true
+		if st := scanBack(x, len(x.Instrs)-1); st != nil {
+			stores = append(stores, st)
+			continue
+		}
+		if len(x.Preds) == 0 || x == x.Parent().Blocks[0] {
+			fromEntry = true
+		}
+		stack = append(stack, x.Preds...)
+	}
+	return stores, fromEntry
 }
